@@ -8,6 +8,7 @@ from .. import cfg as cfgmod
 from .. import lin
 from ..anchors import RESOURCES, SIM, WORKERS, Sim
 from ..core import (
+    closure_functions,
     AnalysisError,
     call_name,
     calls_in,
@@ -409,7 +410,7 @@ def r5_one_worker(ctx: Context) -> None:
     if not bad:
         ctx.ok("C01.R5", "WorkerPool.place_task|one worker, recorded", loc(fn), f"{npaths} normal paths examined")
     # the chosen worker passed the fit test for the chosen strategy on the first-fit branches
-    fits = [c for c in calls_in(fn, "can_accomodate_strategy")]
+    fits = [c for f in closure_functions(fn) for c in calls_in(f, "can_accomodate_strategy")]
     ctx.floor("C01.R5", "fit tests in WorkerPool.place_task", len(fits), 3)
     # WorkerPool.remove_task removes from the recorded worker
     rm = method(cls, "remove_task")
@@ -461,6 +462,15 @@ def r7_fit_tests(ctx: Context) -> None:
                     p = parent(n)
                     if isinstance(p, ast.If) and isinstance(p.test, ast.Compare) and isinstance(p.test.ops[0], ast.Eq):
                         ok = True
+    # the same as one expression: sum(q for r, q in self._resource_vector.items() if r == resource)
+    for c in [c for c in calls_in(ga, "sum") if c.args and isinstance(c.args[0], (ast.GeneratorExp, ast.ListComp))]:
+        comp = c.args[0]
+        gen = comp.generators[0]
+        if len(comp.generators) == 1 and "_resource_vector" in src(gen.iter) and "__total" not in src(gen.iter) and norm(gen.iter).endswith(".items()") \
+                and isinstance(gen.target, ast.Tuple) and len(gen.target.elts) == 2 and norm(comp.elt) == norm(gen.target.elts[1]) \
+                and len(gen.ifs) == 1 and isinstance(gen.ifs[0], ast.Compare) and isinstance(gen.ifs[0].ops[0], ast.Eq) \
+                and {norm(gen.ifs[0].left), norm(gen.ifs[0].comparators[0])} == {norm(gen.target.elts[0]), "resource"}:
+            ok = True
     ctx.check(ok, "C01.R7", "Resources.get_available_quantity|sums matching entries of the current vector", loc(ga),
               "sum over _resource_vector where entry == resource", "availability is not computed from the current vector")
     # ... and nothing else: every value the accessors return is accumulated in this call (no memo on the instance)
@@ -469,8 +479,11 @@ def r7_fit_tests(ctx: Context) -> None:
         stale = []
         for r in ast.walk(fn_acc):
             if isinstance(r, ast.Return) and r.value is not None:
+                # the ledger iterated by a comprehension inside the returned expression is a computation, not a stored value
+                iterated = {id(x) for c in ast.walk(r.value) if isinstance(c, ast.comprehension) for x in ast.walk(c.iter)}
                 for x in ast.walk(r.value):
-                    if isinstance(x, ast.Attribute) and is_self_attr(x) and x.attr not in ("get_total_quantity", "get_available_quantity", "get_allocated_quantity"):
+                    if isinstance(x, ast.Attribute) and is_self_attr(x) and id(x) not in iterated \
+                            and x.attr not in ("get_total_quantity", "get_available_quantity", "get_allocated_quantity"):
                         stale.append(norm(r.value)[:50])
         writes = [norm(a)[:50] for a in ast.walk(fn_acc) if isinstance(a, (ast.Assign, ast.AugAssign))
                   for t in (a.targets if isinstance(a, ast.Assign) else [a.target])
